@@ -49,6 +49,7 @@ fn spec_of(c: &SCase) -> WorldSpec {
 
 #[derive(Default, Debug)]
 pub struct Stats {
+    pub role_rotations: u64,
     pub built: bool,
     pub baseline_ok: Vec<&'static str>,
     pub cells: u64,
@@ -198,6 +199,76 @@ pub fn run_case(c: &SCase, stats: &mut Stats) -> Result<(), (String, String)> {
     }
     staked_settings_cells(&w, stats)?;
     add_bank_permissionless_cells(&w, stats)?;
+    role_rotation_cells(&w, c.borrow_frac as u64, stats)?;
+    Ok(())
+}
+
+/// "every administrative instruction succeeds only when signed by the specific role it names" - also after the group admin
+/// has ROTATED the roles with `marginfi_group_configure`: for the curve, limit and e-mode delegate, the role is handed to
+/// (a) the key that currently holds ANOTHER role, (b) a fresh key, (c) the null key; after an accepted configure the
+/// role's own instruction must be refused for the replaced key and accepted for the new one (when it can sign).
+fn role_rotation_cells(w: &World, salt: u64, stats: &mut Stats) -> Result<(), (String, String)> {
+    use marginfi_type_crate::types::InterestRateConfigOpt;
+    let r0 = w.roles.clone();
+    if r0.curve == r0.limit || r0.curve == r0.emode || r0.limit == r0.emode {
+        return Ok(()); // worlds whose roles all sit on the admin key have nothing to rotate
+    }
+    let fresh = crate::world::kp("c08b_fresh_role", salt % 7);
+    let sol = 0usize;
+    let act = |ww: &World, role: u8, signer: Pubkey| -> Instruction {
+        match role {
+            0 => ww.ix_configure_interest_only(sol, InterestRateConfigOpt { insurance_fee_fixed_apr: Some(crate::world::w_mill(1_000 + (salt % 5) as u32)), ..Default::default() }, signer),
+            1 => ww.ix_configure_limits_only(sol, Some(u64::MAX / 2 - salt % 1000), None, None, signer),
+            _ => ww.ix_config_emode(sol, 0, &[], signer),
+        }
+    };
+    let names = ["curve", "limit", "emode"];
+    let holder = |r: &Roles, role: u8| match role {
+        0 => r.curve,
+        1 => r.limit,
+        _ => r.emode,
+    };
+    for role in 0u8..3 {
+        let others: Vec<(String, Pubkey)> = (0u8..3).filter(|o| *o != role).map(|o| (format!("the current {} admin", names[o as usize]), holder(&r0, o))).chain([("a fresh key".to_string(), fresh), ("the null key".to_string(), Pubkey::default()), ("the group admin".to_string(), r0.admin), ("the risk admin".to_string(), r0.risk)]).collect();
+        for (who, newk) in others {
+            let old = holder(&r0, role);
+            if newk == old {
+                continue;
+            }
+            let mut r1 = r0.clone();
+            match role {
+                0 => r1.curve = newk,
+                1 => r1.limit = newk,
+                _ => r1.emode = newk,
+            }
+            let mut vm = w.vm.clone();
+            if newk != Pubkey::default() && vm.get(&newk).is_none() {
+                vm.set(newk, crate::world::wallet_acct(1_000_000_000));
+            }
+            if vm.exec(&w.ix_group_configure(&r1, None, None)).is_err() {
+                continue;
+            }
+            stats.role_rotations += 1;
+            // the replaced key
+            let mut v1 = vm.clone();
+            if v1.exec(&act(w, role, old)).is_ok() {
+                return Err((
+                    format!("auth:role-rotation:{}:replaced-key-still-accepted", names[role as usize]),
+                    format!("after marginfi_group_configure handed the {} role to {who}, the REPLACED key still passes the {} admin's instruction", names[role as usize], names[role as usize]),
+                ));
+            }
+            // the new key
+            if newk != Pubkey::default() {
+                let mut v2 = vm.clone();
+                if v2.exec(&act(w, role, newk)).is_err() {
+                    return Err((
+                        format!("auth:role-rotation:{}:named-key-refused", names[role as usize]),
+                        format!("after marginfi_group_configure handed the {} role to {who}, the key it named is refused by the {} admin's instruction", names[role as usize], names[role as usize]),
+                    ));
+                }
+            }
+        }
+    }
     Ok(())
 }
 
@@ -423,6 +494,7 @@ pub fn run(ctx: &Ctx) -> Report {
             if counting {
                 rep.eval();
                 rep.add_extra("staked_substitution_cells", st.cells);
+                rep.add_extra("role_rotations_evaluated", st.role_rotations);
                 for b in &st.baseline_ok {
                     rep.label(&format!("staked-baseline-ok:{b}"));
                 }
